@@ -163,6 +163,7 @@ func runCertCase(o *Oracle, d json.RawMessage, oc *Outcome) {
 	text := certText(&c)
 	// reader entry point, twice
 	v1, err1 := pb.Unsat(strings.NewReader(strings.Join(text, "\n") + "\n"))
+	tags1 := pb.VerifTagged()
 	v2, err2 := pb.Unsat(strings.NewReader(strings.Join(text, "\n") + "\n"))
 	// channel entry point
 	ch := make(chan string)
@@ -175,6 +176,37 @@ func runCertCase(o *Oracle, d json.RawMessage, oc *Outcome) {
 	v3, err3 := pb.UnsatChan(ch)
 	for range ch { // UnsatChan may return before draining
 	}
+	tags3 := pb.VerifTagged()
+	// exact differential with the Lean mirror of the checker (GS.Explain.runAll / runChan):
+	// same verdict and same tagged clauses
+	tagStr := func(t []bool) string {
+		b := make([]byte, len(t))
+		for i, x := range t {
+			b[i] = '0'
+			if x {
+				b[i] = '1'
+			}
+		}
+		return string(b)
+	}
+	mirror := func(op string, valid bool, tags []bool) {
+		a := o.Ask(fmt.Sprintf("%s %d | %s | %s", op, n, encCnf(c.Cnf), encCnf(c.Lines)))
+		oc.Corr++
+		var mv int
+		var mt string
+		fs := strings.Fields(a)
+		if len(fs) < 2 || !strings.HasPrefix(fs[0], "valid=") || !strings.HasPrefix(fs[1], "tagged=") {
+			oc.Fail("corr", "explain-mirror", "explain.Problem.Unsat", "mirror answered %q", a)
+			return
+		}
+		fmt.Sscanf(fs[0], "valid=%d", &mv)
+		mt = strings.TrimPrefix(fs[1], "tagged=")
+		if (mv == 1) != valid || mt != tagStr(tags) {
+			oc.Fail("corr", "explain-mirror", "explain.Problem."+map[string]string{"xcheck": "Unsat", "xchan": "UnsatChan"}[op], "Go: valid=%v tagged=%s ; Lean mirror: %s", valid, tagStr(tags), a)
+		}
+	}
+	mirror("xcheck", v1, tags1)
+	mirror("xchan", v3, tags3)
 	if err1 != nil || err2 != nil || err3 != nil {
 		oc.Fail("spec", "no-error", "explain.Problem.Unsat", "errors on a syntactically valid certificate: %v %v %v", err1, err2, err3)
 	}
